@@ -59,7 +59,7 @@ def selftest(res, trace_file, wd):
     ev = read_ndjson(trace_file)
     def good(seg):
         return seg[0].get("kind") in ("budp", "bunix") and sum(1 for e in seg if e["ev"] == "att" and e["ok"] and e["len"] > 2) >= 2 \
-            and any(e["ev"] == "stats" for e in seg) and all(e.get("ok", True) for e in seg if e["ev"] == "att")
+            and any(e["ev"] == "stats" for e in seg)
     run = first_run(ev, good)
     if run is None:
         raise ToolError("socket binding self-test: no suitable run")
